@@ -39,7 +39,8 @@ REQUIRED = {"set:entries": len(C44_ENTRIES),
             "notifications_compared": {"quick": 20000, "thorough": 500000}}
 LABELS = {"ref_count": "state-in-factory-closure",
           "replay": "subject-built-with-operator",
-          "publish_value": "subject-built-with-operator"}
+          "publish_value": "subject-built-with-operator",
+          "replay_ref_count": "subject-built-with-operator+state-in-factory-closure"}
 # the multicasting factories (the only ones that hand out connectables / keep subscriber counts) get 4x weight
 WEIGHTED = C44_ENTRIES + [n for n in C44_ENTRIES if not ENTRIES[n].c04] * 3
 GRID = [0, 0, 1, 3, 5, 5, 6, 10, 10, 11, 15, 16, 20, 21, 25, 30, 40]
